@@ -81,6 +81,14 @@ def scripts_from_graph(g, seed, maxlen=40):
             else:
                 raise vlib.ToolError("unknown edge label " + label)
             expect.append(node_state(g, dst))
+        # probe suffix: from whatever state the walk ended in, a fresh seek must still give the keystream of the absolute
+        # position (makes persistent hidden-state corruption - e.g. a damaged nonce/counter word - observable); not part of
+        # the graph, so no model state is expected for these two records
+        probe = [0, 64 * 3 + 5, 2**38 - 130, 64][rot % 4]
+        lines.append("seek u64 0 %d" % probe)
+        lines.append("apply %d" % [70, 130, 1, 64][rot % 4])
+        expect.append(None)
+        expect.append(None)
     return "\n".join(lines) + "\n", expect, walks
 
 
@@ -94,7 +102,7 @@ def drift(recs, expect):
     diffs = []
     for i, (r, e) in enumerate(zip(recs, expect)):
         st = r.get("st")
-        if not st or r.get("res", "ok").startswith("panic"):
+        if e is None or not st or r.get("res", "ok").startswith("panic"):
             continue
         got = {"have": st["have"], "len": sum(x << (16 * j) for j, x in enumerate(st["len"])), "fresh": st["fresh"],
                "p0": sum(x << (16 * j) for j, x in enumerate(st["p0"]))}
